@@ -37,6 +37,8 @@ def isComponent (env : Env) (nameN : Node) : Bool :=
   let shouldSlots := !isFragmentName name && name != KEEP_ALIVE
   match nameN with
   | .mk .jsxMember _ _ => shouldSlots
+  -- the tag of `<ns:name>` is `ns:name`: that is what a pattern has to match
+  | .mk .jsxNsName _ [nsN, nmN] => !env.isPat (identName nsN ++ ":" ++ identName nmN) && shouldSlots && !isKnownTag env name
   | _ => !env.isPat name && shouldSlots && !isKnownTag env name
 
 /-- the pragma in force: the comment annotation, else the option -/
